@@ -45,7 +45,15 @@ type SK struct {
 	deps uint64
 	why  string   // provenance of the worst component (for reports)
 	srcs []string // for Tainted: the distinct user-controlled sources (sorted)
-	esc  uint8    // for Tainted: metacharacter classes already escaped on every tainted component
+	esc  uint8    // for Tainted: metacharacter classes already escaped on every tainted (source-derived) component
+	depEsc uint8  // the same for the parameter-derived components (deps)
+}
+
+// escaped marks every component of k as having passed an escaper for the classes in m.
+func (k SK) escaped(m uint8) SK {
+	k.esc |= m
+	k.depEsc |= m
+	return k
 }
 
 // escape classes
@@ -56,6 +64,8 @@ const (
 	escDQuote
 	escNewline
 	escSQuote
+	escSlash  // path separators replaced
+	escDotDot // "." / ".." components handled
 )
 
 func mergeSrcs(a, b []string) []string {
@@ -89,15 +99,24 @@ func skJoin(a, b SK) SK {
 		out.k = b.k
 		out.why = b.why
 	}
-	// escaped classes: a value carries parameter- or source-derived text if it is Tainted or has deps
-	ca, cb := a.k == KTainted || a.deps != 0, b.k == KTainted || b.deps != 0
+	// escaped classes, tracked separately for the source-derived and the parameter-derived components
+	ta, tb := a.k == KTainted, b.k == KTainted
 	switch {
-	case ca && cb:
+	case ta && tb:
 		out.esc = a.esc & b.esc
-	case ca:
+	case ta:
 		out.esc = a.esc
-	case cb:
+	case tb:
 		out.esc = b.esc
+	}
+	da, db := a.deps != 0, b.deps != 0
+	switch {
+	case da && db:
+		out.depEsc = a.depEsc & b.depEsc
+	case da:
+		out.depEsc = a.depEsc
+	case db:
+		out.depEsc = b.depEsc
 	}
 	return out
 }
@@ -602,8 +621,7 @@ func (e *taintEngine) resolve(fn *ssa.Function, k SK, depth int) SK {
 	out := SK{k: k.k, why: k.why, srcs: k.srcs, esc: k.esc}
 	for i := 0; i < 64 && i < len(fn.Params); i++ {
 		if k.deps&(1<<uint(i)) != 0 {
-			ak := e.argKind(fn, i, depth+1)
-			ak.esc |= k.esc // escapes applied on the way from the parameter to this value
+			ak := e.argKind(fn, i, depth+1).escaped(k.depEsc) // escapes applied on the way from the parameter to this value
 			out = skJoin(out, ak)
 		}
 	}
@@ -831,8 +849,7 @@ func (e *taintEngine) substitute(k SK, cc *ssa.CallCommon, depth int) SK {
 	out := SK{k: k.k, why: k.why, srcs: k.srcs, esc: k.esc}
 	for i := 0; i < 64 && i < len(cc.Args); i++ {
 		if k.deps&(1<<uint(i)) != 0 {
-			ak := e.kind(cc.Args[i], depth+1)
-			ak.esc |= k.esc
+			ak := e.kind(cc.Args[i], depth+1).escaped(k.depEsc)
 			out = skJoin(out, ak)
 		}
 	}
@@ -904,8 +921,7 @@ func (e *taintEngine) callKind(c *ssa.Call, resultIdx int, depth int) SK {
 		if (name == "strings.ReplaceAll" || name == "strings.Replace") && len(cc.Args) >= 3 {
 			// s' = ReplaceAll(s, old, new): old is escaped when new is "\"+old (or a different escape of it)
 			if m := escapeMaskOf(cc.Args[1], cc.Args[2]); m != 0 {
-				s0 := e.kind(cc.Args[0], depth+1)
-				s0.esc |= m
+				s0 := e.kind(cc.Args[0], depth+1).escaped(m)
 				return skJoin(s0, e.kind(cc.Args[2], depth+1).withoutEsc())
 			}
 		}
@@ -924,7 +940,7 @@ func (e *taintEngine) callKind(c *ssa.Call, resultIdx int, depth int) SK {
 	if callee.Blocks != nil && (callee.Pkg == nil || strings.HasPrefix(callee.Pkg.Pkg.Path(), core.Mod)) {
 		rk := e.fnKind(callee, resultIdx, depth+1)
 		if e.cfg.loopEscapers {
-			rk.esc |= loopEscapeMask(callee)
+			rk = rk.escaped(loopEscapeMask(callee))
 		}
 		return e.substitute(rk, cc, depth)
 	}
@@ -1149,7 +1165,7 @@ func concatHasMarkupConst(b *ssa.BinOp) bool {
 	return false
 }
 
-func (k SK) withoutEsc() SK { k.esc = 0; return k }
+func (k SK) withoutEsc() SK { k.esc = 0; k.depEsc = 0; return k }
 
 func constString(v ssa.Value) (string, bool) {
 	c, ok := v.(*ssa.Const)
@@ -1173,6 +1189,10 @@ func classOf(s string) uint8 {
 		return escNewline
 	case "'":
 		return escSQuote
+	case "/":
+		return escSlash
+	case "..":
+		return escDotDot
 	}
 	return 0
 }
@@ -1190,6 +1210,9 @@ func escapeMaskOf(oldV, newV ssa.Value) uint8 {
 	}
 	if strings.HasPrefix(n, "\\") && n != o {
 		return c
+	}
+	if (c == escSlash || c == escDotDot) && !strings.Contains(n, "/") && !strings.Contains(n, "..") {
+		return c // path metacharacter replaced by something harmless
 	}
 	return 0
 }
@@ -1212,6 +1235,9 @@ func loopEscapeMask(fn *ssa.Function) uint8 {
 				case *ssa.BinOp:
 					if x.Op == token.EQL {
 						for _, side := range []ssa.Value{x.X, x.Y} {
+							if sv, ok := constString(side); ok && sv == ".." {
+								m |= escDotDot // the function singles out the parent-directory component
+							}
 							if c, ok := side.(*ssa.Const); ok && c.Value != nil && c.Value.Kind() == constant.Int {
 								if v, ok := constant.Int64Val(c.Value); ok && v > 0 && v < 128 {
 									compared = append(compared, string(rune(v)))
